@@ -456,11 +456,15 @@ class Bin(Factory, Container):
 
         else:
             q = np.array(q, dtype=np.float64)
+            inrange = np.logical_and(q >= self.low, q < self.high)
             np.subtract(q, self.low, q)
             np.multiply(q, self.num, q)
             np.divide(q, self.high - self.low, q)
             np.floor(q, q)
             q = np.array(q, dtype=int)
+            # x < high, but the quotient can round up to num for x immediately below high: stay in the last bin
+            # (as bin() does for the row-wise fill)
+            q[np.logical_and(inrange, q >= self.num)] = self.num - 1
 
             for index, value in enumerate(self.values):
                 np.not_equal(q, index, selection)
